@@ -26,7 +26,13 @@ EXTENDS Naturals, Sequences, FiniteSets, TLC
 CONSTANTS MaxTokens,    \* bound on token strings (machine "strings") / postfix tokens (machine "trees")
           Mode,         \* "strings" or "trees"
           Quant,        \* TRUE: the strings machine also writes the quantifier prefix "Q" (and no line breaks)
-          Deviations    \* {"QuantifierTakesFullExpression"}: the operand of Q is a whole expression (sharpness control)
+          Deviations,   \* {"QuantifierTakesFullExpression"}: the operand of Q is a whole expression (sharpness control)
+          QSem          \* what the prefix "Q" stands for:
+                        \*  "one"  a quantifier over a collection of ONE element (`every line :` ...): the operand is a
+                        \*         matcher of the element type (no Q inside); Q X has the value of X
+                        \*  "ctx"  `-transformed-by TRANSFORMER`: the operand - a simple expression of the SAME type, Q
+                        \*         allowed inside - is applied to the transformed text, on which every primitive has
+                        \*         the opposite value (T: true of the original text only, F: of the transformed only)
 
 (* "Q" is a quantifier of a matcher over a collection - "every line :", "any line :", "every file :", "any file :" -  *)
 (* whose operand is a matcher of ANOTHER type (the element type) and is a SIMPLE expression: one primitive, a        *)
@@ -57,8 +63,9 @@ PPrim(ts, i0, len, lv) ==
   IF h \in {"T", "F"} THEN Ok(Leaf(h, i0), i0 + 1)
   ELSE IF h = "!" THEN LET r == PPrim(ts, SkipNL(ts, i0 + 1), len, lv) IN IF IsErr(r) THEN ERR ELSE Ok(NotE(r.t), r.i)
   ELSE IF h = "Q" THEN IF lv # 0 THEN ERR
-                       ELSE LET r == IF "QuantifierTakesFullExpression" \in Deviations THEN POr(ts, i0 + 1, len, 1)
-                                     ELSE PPrim(ts, i0 + 1, len, 1)
+                       ELSE LET inner == IF QSem = "ctx" THEN 0 ELSE 1
+                                r == IF "QuantifierTakesFullExpression" \in Deviations THEN POr(ts, i0 + 1, len, inner)
+                                     ELSE PPrim(ts, i0 + 1, len, inner)
                             IN IF IsErr(r) THEN ERR ELSE Ok(QuantE(r.t), r.i)
   ELSE IF h = "(" THEN LET r == POr(ts, SkipNL(ts, i0 + 1), len, lv) IN
        IF IsErr(r) THEN ERR
@@ -89,17 +96,19 @@ ParseSimple(ts, len) ==
 
 -----------------------------------------------------------------------------
 (* Lazy evaluation, left to right: the value and the positions of the primitives actually evaluated *)
-RECURSIVE Eval(_), EvalSeq(_, _, _)
-Eval(t) == CASE t.op = "leaf" -> [v |-> t.v = "T", log |-> <<t.pos>>]
-             [] t.op = "not" -> LET r == Eval(t.a) IN [v |-> ~r.v, log |-> r.log]
-             [] t.op = "q" -> Eval(t.a)           \* a collection of one element
-             [] t.op = "and" -> EvalSeq(t.as, 1, FALSE)
-             [] t.op = "or" -> EvalSeq(t.as, 1, TRUE)
+RECURSIVE EvalC(_, _), EvalSeq(_, _, _, _)
+\* c: inside a transformed context (QSem = "ctx")
+EvalC(t, c) == CASE t.op = "leaf" -> [v |-> (t.v = "T") # c, log |-> <<t.pos>>]
+                 [] t.op = "not" -> LET r == EvalC(t.a, c) IN [v |-> ~r.v, log |-> r.log]
+                 [] t.op = "q" -> EvalC(t.a, c \/ QSem = "ctx")
+                 [] t.op = "and" -> EvalSeq(t.as, 1, FALSE, c)
+                 [] t.op = "or" -> EvalSeq(t.as, 1, TRUE, c)
+Eval(t) == EvalC(t, FALSE)
 \* stop at the first operand whose value is `decisive` (FALSE for &&, TRUE for ||)
-EvalSeq(as, j, decisive) ==
-  LET r == Eval(as[j]) IN
+EvalSeq(as, j, decisive, c) ==
+  LET r == EvalC(as[j], c) IN
   IF r.v = decisive \/ j = Len(as) THEN r
-  ELSE LET s == EvalSeq(as, j + 1, decisive) IN [v |-> s.v, log |-> r.log \o s.log]
+  ELSE LET s == EvalSeq(as, j + 1, decisive, c) IN [v |-> s.v, log |-> r.log \o s.log]
 
 Denote(ts, len) == LET p == Parse(ts, len) IN
   IF IsErr(p) THEN [r |-> "ERR", log |-> <<>>] ELSE LET e == Eval(p) IN [r |-> IF e.v THEN "T" ELSE "F", log |-> e.log]
@@ -192,7 +201,7 @@ RECURSIVE CountQ(_, _)
 CountQ(s, k) == IF k = 0 THEN 0 ELSE CountQ(s, k - 1) + (IF s[k] = "Q" THEN 1 ELSE 0)
 ErasedLog(s, log) == [j \in 1..Len(log) |-> log[j] - CountQ(s, log[j])]
 QuantifierIsPrefixOperator ==
-  (Mode = "strings" /\ Quant) =>
+  (Mode = "strings" /\ Quant /\ QSem = "one") =>
      LET d == Denote(ts, TRUE) e == Denote(Erase(ts), TRUE) IN
      d.r # "ERR" => (e.r = d.r /\ e.log = ErasedLog(ts, d.log))
 RoundTrip ==
